@@ -196,10 +196,62 @@ def before_init(part: Part) -> None:
                 w.close()
 
 
+def after_failed_reconnect(part: Part) -> None:
+    """The same SecureSession object connected a second time, and that handshake fails (SessionResponse with a wrong MAC, or
+    none at all): afterwards it is not a session - wrappers of the earlier session (replays) and of the would-be new one are
+    not passed on, nothing raises, and an application frame is refused instead of going out under an old key."""
+    from xknx.exceptions import CommunicationError, IPSecureError
+    from xknx.knxip import KNXIPFrame, TunnellingRequest
+
+    with PatchCrypto():
+        for mode in ("bad-mac", "no-answer"):
+            for new_id in (False, True):
+                w = SessionWorld()
+                try:
+                    old = [(f"old-session-seq-{q}", w.frame_for("genuine", q, 1)) for q in (0, 1, 5)]
+                    w.session.stop()
+                    w.loop.settle()
+                    if new_id:
+                        w.srv.session_id += 1
+                    w.srv.session_handler = lambda stage, mode=mode: mode if stage == "session-request" else "ok"
+                    t = w.spawn(w.session.connect(), name="harness-reconnect")
+                    w.loop.run_until(w.loop.time() + 30)
+                    part.evaluations += 1
+                    part.nontrivial += 1
+                    case = {"kind": "failed-reconnect", "mode": mode, "new_id": new_id}
+                    if not t.done() or texc(t) is None:
+                        part.viol(f"reconnect-succeeds-despite:{mode}", f"connect() {'returned' if t.done() else 'still pending'} although the SessionResponse was {mode}", case)
+                        continue
+                    writes = len(w.srv.client_writes)
+                    frames = old + [("new-session-seq-0", w.frame_for("genuine", 0, 2)), ("new-session-seq-9", w.frame_for("genuine", 9, 2))]
+                    for name, raw in frames:
+                        got, exc = w.feed(raw)
+                        if exc is not None:
+                            part.viol(exc_sig(f"receive-raises-after-failed-reconnect:{mode}", exc), f"{name}: {exc!r}", case)
+                        elif got:
+                            part.viol(f"frame-accepted-after-failed-reconnect:{mode}:{name.rsplit('-', 2)[0]}", f"{name} passed on after connect() failed ({mode}): {got}", case)
+                    try:
+                        w.session.send(KNXIPFrame.init_from_body(TunnellingRequest(7, 0, CEMI)))
+                        sent = "returned"
+                    except (IPSecureError, CommunicationError) as exc:
+                        sent = type(exc).__name__
+                    except Exception as exc:  # noqa: BLE001
+                        part.viol(exc_sig(f"send-raises-undeclared-after-failed-reconnect:{mode}", exc), f"{exc!r}", case)
+                        sent = "raised"
+                    w.loop.settle()
+                    later = w.srv.client_writes[writes:]
+                    if later:
+                        part.viol(f"frame-sent-after-failed-reconnect:{mode}", f"send() {sent}; the server received {[(k, type(b).__name__) for _t, k, _s, b in later]} although no session was established", case)
+                    part.outcomes[f"failed-reconnect:{mode}:send-{sent}"] += 1
+                finally:
+                    w.close()
+
+
 def w_receive(max_seq: int) -> Part:
     part = Part()
     bfs(part, max_seq)
     before_init(part)
+    after_failed_reconnect(part)
     return part
 
 
@@ -312,7 +364,7 @@ def run(ctx: Ctx) -> None:
     ctx.rule = (
         f"(a) explicit-state search to a fixpoint of the real SecureSession receive path after a real handshake with the simulated secure server: state = last accepted sequence number 0..{max_seq}; "
         f"from every state every event {KINDS} x sequence 0..{max_seq} and {PLAIN} (frames wrapped by the independent reference) is fed: delivered <=> genuine and strictly larger sequence, the counter "
-        "moves only then, nothing raises; frames before initialisation never raise or get accepted; (b) real SecureTunnel sessions (handshake, connect, heartbeats, keep-alives, sends, reconnects, close) "
+        "moves only then, nothing raises; frames before initialisation never raise or get accepted; the same session object connected a second time with a handshake that fails (SessionResponse MAC wrong / missing): replayed wrappers of the first session and wrappers of the would-be new one are not passed on, an application frame is refused, nothing reaches the server; (b) real SecureTunnel sessions (handshake, connect, heartbeats, keep-alives, sends, reconnects, close) "
         f"with every schedule of {Q[1:]} within <= {bound} deviations: the server unwraps every octet the client wrote - only SessionRequest is plain, wrappers verify and carry 0,1,2,... per session"
     )
     ctx.bounds = {"max_sequence": max_seq, "deviation_bound": bound}
